@@ -158,6 +158,36 @@ def c16_2(R):
     else:
         R.fail([ot.name, "doubling-sites=%d" % n], "a timeout no longer doubles the RTO (within the clamp) in both estimator states", where=ot.where(), instance="backoff-doubles")
     sm = R.body("rtte::RttEstimator::sample")
+    # RFC 6298 2.3 smoothing factors: RTTVAR = 3/4 RTTVAR + 1/4 |SRTT - R|, SRTT = (7 SRTT + R) / 8
+    coef = sorted((short_callee(t.resolved).split("::")[-1], t.args[1].scalar) for t in sm.calls() if t.is_call and len(t.args) == 2 and t.args[1].kind == "const" and isinstance(t.args[1].scalar, int)
+                  and (t.callee or "").startswith("std::ops::") and "Duration" in (t.callee_full or t.resolved or "") and short_callee(t.resolved).split("::")[-1] in ("mul", "div"))
+    subs_coef = [c for c in coef if c in (("mul", 3), ("div", 4), ("mul", 7), ("div", 8))]
+    if sorted(subs_coef) == [("div", 4), ("div", 4), ("div", 8), ("mul", 3), ("mul", 7)]:
+        R.ok("smoothing-factors", sm.name, "alpha = 1/8, beta = 1/4")
+    else:
+        R.fail([sm.name, "smoothing-factors", ",".join("%s%d" % c for c in coef)], "the RTT smoothing no longer uses alpha = 1/8, beta = 1/4 (RTTVAR*3/4 + |d|/4, (SRTT*7 + R)/8)", where=sm.where(), instance="smoothing-factors")
+    # the RTO of a sample is computed from the UPDATED estimator: in the Subsequent arm calc_rto comes after both stores
+    sub_calls = []
+    for t in sm.calls():
+        if call_matches(t, ("rtte::calc_rto",)):
+            srcs = [trace(sm, a).last_field for a in t.args]
+            if srcs == ["RttState::Subsequent.srtt", "RttState::Subsequent.rttvar"]:
+                sub_calls.append(t)
+    stores = []
+    for s_ in sm.stmts():
+        if s_.place.proj == ["*"]:
+            lf = trace(sm, Place({"l": s_.place.local, "p": []})).last_field
+            if lf in ("RttState::Subsequent.srtt", "RttState::Subsequent.rttvar"):
+                stores.append(s_)
+    if sub_calls and len(stores) >= 2 and all(point_reaches(sm, st, c) and not point_reaches(sm, c, st) for c in sub_calls for st in stores):
+        R.ok("rto-from-updated-estimator", sm.name, "calc_rto(*srtt, *rttvar) after both smoothing stores")
+    else:
+        R.fail([sm.name, "calc_rto-before-update"], "the RTO stored after a sample is computed before SRTT / RTTVAR are updated: it is not SRTT + 4 * RTTVAR of the new estimate", where=(sub_calls[0].where() if sub_calls else sm.where()), instance="rto-from-updated-estimator")
+    halves = [t for t in sm.calls() if t.is_call and len(t.args) == 2 and t.args[1].kind == "const" and t.args[1].scalar == 2 and "Duration" in (t.callee_full or t.resolved or "") and short_callee(t.resolved).split("::")[-1] == "div"]
+    if halves:
+        R.ok("first-sample", sm.name, "RTTVAR = R / 2")
+    else:
+        R.fail([sm.name, "first-sample-rttvar"], "the first sample no longer sets RTTVAR = R / 2 (RFC 6298 2.2)", where=sm.where(), instance="first-sample")
     # order of the two smoothing updates: rttvar first (uses the old srtt)
     wv = ws = None
     for s in sm.stmts():
